@@ -27,7 +27,7 @@ class LinkTransport(fakes.FakeTransport):
             self.out.append(bytes(data))
 
 
-def make_service(log, held, name):
+def make_service(log, held, name, falsy=False):
     from twisted.internet import defer
     from txdbus import objects as O, interface as I
     iface = I.DBusInterface(
@@ -96,6 +96,13 @@ def make_service(log, held, name):
             log.append((name, 'Who', dbusCaller))
             return '%s@%s' % (dbusCaller, name)
 
+    if falsy:
+        # a container-like application object that is empty at the moment:
+        # its truth value is False, it is exported all the same
+        class EmptySvc(Svc):
+            def __len__(self):
+                return 0
+        return EmptySvc, iface, other
     return Svc, iface, other
 
 
@@ -165,6 +172,12 @@ SCENARIOS = {
                         calls=[(1, 0, 'slow'), (1, 0, 'echo')]),
     '2c-long-255': dict(n=2, exporters={0: 'org.ex.A'}, gap=255,
                         calls=[(1, 0, 'slow'), (1, 0, 'echo')]),
+    # the exported objects are container-like and currently empty (their
+    # truth value is False)
+    '2c-falsy': dict(n=2, exporters={0: 'org.ex.A'}, falsy=True,
+                     calls=[(1, 0, 'echo'), (1, 0, 'add')]),
+    '3c-falsy': dict(n=3, exporters={0: 'org.ex.A', 2: 'org.ex.C'},
+                     falsy=True, calls=[(1, 0, 'echo'), (1, 2, 'swap')]),
     '4c': dict(n=4, exporters={0: 'org.ex.A', 3: 'org.ex.D'},
                calls=[(1, 0, 'echo'), (2, 3, 'echo2'), (1, 3, 'add')]),
 }
@@ -214,7 +227,8 @@ class System:
         self.ifaces = {}
         for idx, name in sorted(sc['exporters'].items()):
             Svc, iface, other = make_service(self.log, self.held,
-                                             'svc%d' % idx)
+                                             'svc%d' % idx,
+                                             falsy=sc.get('falsy', False))
             o = Svc('/svc')
             self.objs[idx] = o
             self.ifaces[idx] = (iface, other)
@@ -553,6 +567,8 @@ def run(ctx):
         plan += [('2c-after-be', 'explicit', 1), ('3c-after-be', 'introspect', 0)]
         plan += [('2c-long-%d' % g, 'explicit', 0)
                  for g in (255, 256, 65535, 65536)]
+        plan += [('2c-falsy', 'explicit', 0), ('2c-falsy', 'introspect', 0),
+                 ('3c-falsy', 'introspect', 0)]
         limit = 5000
     else:
         plan = [('2c-2calls', 'explicit', 2), ('2c-2calls', 'introspect', 1),
@@ -571,6 +587,8 @@ def run(ctx):
                  ('3c-after-be', 'introspect', 1)]
         plan += [('2c-long-%d' % g, 'explicit', 0)
                  for g in (255, 256, 65534, 65535, 65536, 65537)]
+        plan += [('2c-falsy', 'explicit', 1), ('2c-falsy', 'introspect', 1),
+                 ('3c-falsy', 'introspect', 0), ('3c-falsy', 'explicit', 0)]
         limit = 60000
     for scn, mode, dev in plan:
         dfs.explore(ctx, make_runner,
